@@ -9,7 +9,8 @@ CONSTANTS NL
 Kinds == { Ln(<<"a", "b">>, "text", 0), Ln(<<"#", " ", "c">>, "text", 0), Ln(<<"-", " ", "e">>, "text", 0), Ln(<<"k", ":", " ", "v">>, "text", 0),
            Ln(<<" ", "m">>, "more", 0), Ln(<<"\t", "t">>, "more", 0), Ln(<<>>, "empty", 0), Ln(<<>>, "empty", 1),
            Ln(<<".", ".", ".">>, "text", 0), Ln(<<"-", "-", "-", " ", "x">>, "text", 0),        \* look like document markers: content when indented
-           Ln(<<"1", "2">>, "text", 0) }                                                           \* reads as an integer: a block scalar is a string
+           Ln(<<"1", "2">>, "text", 0),
+           Ln(<<"<u19977>", "x">>, "text", 0) }                                                    \* starts with a character whose code point ends in the byte of a tab                                                           \* reads as an integer: a block scalar is a string
 LooksLikeMarker(l) == l.txt # <<>> /\ Len(l.txt) >= 3 /\ l.txt[1] = l.txt[2] /\ l.txt[2] = l.txt[3] /\ l.txt[1] \in {".", "-"}
 VARIABLES ls, phase, par
 vars == <<ls, phase, par>>
